@@ -12,6 +12,7 @@
                                                        rebuild(y0, m0) on a fresh object, then ydayset / mdayset / wdayset /
                                                        ddayset (y, m, d) → ok <start> <end> [i:v,…  the non-None entries] | err Kind
     rrgen.timeset <args17> <kind 0..2> <h> <m> <s>     htimeset / mtimeset / stimeset → ok [h,m,s,…] | err Kind
+    rrgen.initwhole <args17>                          Gen.init (the whole translated constructor) → ok <normalised rule, as rrule.construct> | err Kind
     rrgen.init <args17>                               the translated sections of rrule.__init__ (Gen.init_*) in source order:
                                                        ok bysetpos bymonth byyearday byeaster bymonthday(pos/neg) byweekno byweekday/bynweekday byhour byminute bysecond timeset | err Kind
                                                        (interval check first; bymonth / bymonthday through the defaults section)
@@ -104,6 +105,12 @@ def runInit (a : Args) : String :=
 
 def handle (op : String) (args : List String) : Option String :=
   if !op.startsWith "rrgen." then none else
+  if op == "rrgen.initwhole" then
+    -- `wkst@k` of the wire form is already resolved by parseArgs? (the ambient first weekday is folded into wkst)
+    (match Ops.RRule.parseArgs? (args.take 17) with
+     | some a => some (Py.showR Ops.RRule.showRule (Gen.init 0 a.tz a.freq a.dtstart a.interval a.wkst a.count a.untilDT a.bysetpos
+         a.bymonth a.bymonthday a.byyearday a.byeaster a.byweekno a.byweekday a.byhour a.byminute a.bysecond false))
+     | none => some "bad-args") else
   if op == "rrgen.init" then
     (match Ops.RRule.parseArgs? (args.take 17) with
      | some a => some (runInit a)
